@@ -650,6 +650,7 @@ class FGen:
         if self.two_types:
             state["w"] = ["array", [rng.choice([1.0, -2.0, 0.5]) for _ in range(VT2N)]]
         phases = []
+        multistep = rng.random() < 0.12
         for pi, name in enumerate(names):
             sc = {"nums": ["<t>", "<dt>", "<state>s"], "bools": [], "arrs": {}, "uts": {"<state>y": VT},
                   "counters": {}}
@@ -680,6 +681,17 @@ class FGen:
                 # ('tmp', 'tmp_0', ...) in every phase
                 budget = [rng.randint(1, 3)]
             body += self.body(sc, persist, names, name, budget, 0, False)
+            if multistep:
+                # two-step start-up: the previous state only exists from the second step on, and the branch of the
+                # conditional expression that uses it (inside a call argument) is not to be evaluated before
+                arg = ["*", ["num", 0.5], ["+", ["var", "<state>y"], ["var", "<p>yold"]]]
+                e = ["if", ["cmp", ">", ["var", "<t>"], ["num", 0.6]],
+                     ["call", "<func>rhs", [["var", "<t>"], arg], {}],
+                     rng.choice([["call", "<func>rhs", [["var", "<t>"], ["var", "<state>y"]], {}], ["var", "<state>y"]])]
+                body.append(["assign", "kb", None, e, [], 0])
+                body.append(["assign", "<p>yold", None, ["var", "<state>y"], [], 0])
+                body.append(["assign", "<state>y", None,
+                             ["+", ["var", "<state>y"], ["*", ["num", 0.25], ["var", "kb"]]], [], 0])
             if rng.random() < 0.2:
                 # expression grid: many independent results of boolean / arithmetic expression shapes, observed
                 # after every run call (the valuation of the atoms changes from step to step with <state>s, <t>)
@@ -892,7 +904,7 @@ def persistent_kinds(dag, script):
     for n in sorted(names):
         if not is_persistent(n) or n in kinds:
             continue
-        if n in ("<state>y", "<p>u"):
+        if n in ("<state>y", "<p>u", "<p>yold"):
             kinds[n] = f"ut:{VTN}"
         elif n == "<state>w":
             kinds[n] = f"ut:{VT2N}"
